@@ -433,3 +433,148 @@ Proof.
     + cbn [app]. rewrite do_parse_cons_ok'; [|reflexivity|apply push_spans_ok; assumption].
       apply IH; assumption.
 Qed.
+
+(* ------------------------------------------------------------------------------------------ *)
+(** * Malformed input is answered with an error status, well-formed input is accepted *)
+
+Definition ev_bad (ev : span_event) : bool :=
+  match ev with EvSpan r => negb (id_ok (si_tid r, si_sid r)) | EvPanic => true | EvErr _ => true end.
+Definition ev_err_proper (ev : span_event) : Prop :=
+  match ev with EvErr e => is_error_cls (status_cls (status_of_error e)) = true | _ => True end.
+
+Lemma spans_bad_is_error : forall evs st w failed, world_ok w = true -> span_st_ok st ->
+  Forall ev_err_proper evs -> existsb ev_bad evs = true ->
+  is_error_cls (cls_of_parse (fst (do_parse ctx_traces w failed (parse_spans st evs)))) = true.
+Proof.
+  unfold parse_spans.
+  induction evs as [|ev evs IH]; intros st w failed Hw Hst Hp Hb; [discriminate|].
+  inversion Hp as [|? ? Hp1 Hp2]; subst. cbn [parse_spans_with].
+  destruct ev as [r| |e].
+  - destruct (id_ok (si_tid r, si_sid r)) eqn:Hid.
+    + cbn [existsb ev_bad] in Hb. rewrite Hid in Hb. cbn in Hb.
+      destruct (on_span_good st r Hid) as [st' [out Hon]]. rewrite Hon.
+      destruct (on_span_inv _ _ _ _ Hst Hon) as [Hst' [->|[sp [at_ [-> [Hs Hat]]]]]].
+      * cbn [app]. apply IH; assumption.
+      * cbn [app]. rewrite do_parse_cons_ok'; [|reflexivity|apply push_spans_ok; assumption].
+        apply IH; assumption.
+    + unfold on_span. change ((si_tid r =? 16) && (si_sid r =? 8))%N with (id_ok (si_tid r, si_sid r)).
+      rewrite Hid. reflexivity.
+  - reflexivity.
+  - exact Hp1.
+Qed.
+
+Lemma spans_good_is_done : forall evs st w, world_ok w = true -> span_st_ok st ->
+  existsb ev_bad evs = false ->
+  fst (do_parse ctx_traces w false (parse_spans st evs)) = PDone.
+Proof.
+  unfold parse_spans.
+  induction evs as [|ev evs IH]; intros st w Hw Hst Hb; cbn [parse_spans_with].
+  - destruct Hst as [Hs Ha]. rewrite do_parse_cons_ok'; [|reflexivity|apply push_spans_ok; assumption].
+    reflexivity.
+  - cbn [existsb] in Hb. apply orb_false_iff in Hb as [Hb1 Hb2].
+    destruct ev as [r| |e]; try discriminate Hb1. cbn [ev_bad] in Hb1. apply negb_false_iff in Hb1.
+    destruct (on_span_good st r Hb1) as [st' [out Hon]]. rewrite Hon.
+    destruct (on_span_inv _ _ _ _ Hst Hon) as [Hst' [->|[sp [at_ [-> [Hs Hat]]]]]].
+    + cbn [app]. apply IH; assumption.
+    + cbn [app]. rewrite do_parse_cons_ok'; [|reflexivity|apply push_spans_ok; assumption].
+      apply IH; assumption.
+Qed.
+
+Lemma zipkin_events_bad : forall nd spans, existsb ev_bad (zipkin_events nd spans) = existsb zspan_malformed spans.
+Proof.
+  induction spans as [|s rest IH]; cbn [zipkin_events existsb]; [reflexivity|].
+  unfold zspan_malformed at 1. destruct (decode_zspan s) as [ids|e]; cbn [existsb ev_bad].
+  - rewrite IH. destruct ids; reflexivity.
+  - reflexivity.
+Qed.
+
+Lemma zipkin_events_proper : forall nd spans, Forall ev_err_proper (zipkin_events nd spans).
+Proof.
+  induction spans as [|s rest IH]; cbn [zipkin_events]; [constructor|].
+  destruct (decode_zspan s) as [ids|e] eqn:E.
+  - constructor; [exact I|exact IH].
+  - constructor; [|constructor]. cbn [ev_err_proper]. unfold decode_zspan in E.
+    destruct (decode_hex (z_tid s) 32), (decode_hex (z_sid s) 16), (decode_hex (z_pid s) 16);
+      try (destruct (time_ok (z_ts s) && time_ok (z_dur s))); inversion E; reflexivity.
+Qed.
+
+Lemma ospan_event_bad : forall hr s, ev_bad (ospan_event hr s) = ospan_malformed hr s.
+Proof.
+  intros hr s. unfold ospan_event, ospan_malformed. destruct hr; cbn [negb orb]; [|reflexivity].
+  destruct (o_nilattr s); reflexivity.
+Qed.
+
+Lemma otlp_events_bad : forall rs,
+  existsb ev_bad (otlp_events rs) = existsb (fun r => existsb (ospan_malformed (r_has_resource r)) (r_spans r)) rs.
+Proof.
+  unfold otlp_events. induction rs as [|r rest IH]; cbn [flat_map existsb]; [reflexivity|].
+  rewrite existsb_app, IH. f_equal.
+  induction (r_spans r) as [|s ss IHs]; cbn [map existsb]; [reflexivity|].
+  now rewrite ospan_event_bad, IHs.
+Qed.
+
+Lemma otlp_events_proper : forall rs, Forall ev_err_proper (otlp_events rs).
+Proof.
+  intros rs. apply Forall_forall. intros ev Hin. unfold otlp_events in Hin.
+  apply in_flat_map in Hin as [r [_ Hin]]. apply in_map_iff in Hin as [s [<- _]].
+  unfold ospan_event. destruct (negb (r_has_resource r)); [exact I|]. destruct (o_nilattr s); exact I.
+Qed.
+
+Lemma ingest_char : forall ct from until name w,
+  (ingest_outcome ct from until name w = C2xx /\ ingest_malformed ct from until name w = false) \/
+  (is_error_cls (ingest_outcome ct from until name w) = true /\ ingest_malformed ct from until name w = true).
+Proof.
+  intros ct from until name w. unfold ingest_outcome, ingest_malformed, ingest_decode, name_ok.
+  destruct (String.eqb from "" || String.eqb name "" || String.eqb until ""); [right; split; reflexivity|].
+  cbn [orb]. destruct (ingest_select ct) as [p|]; [|right; split; reflexivity].
+  destruct (parse_uint64 from) as [start|]; [|right; split; reflexivity].
+  destruct (ns_fuel ns_fuel_enough start) eqn:E1; [|exfalso; exact (ns_terminates_all _ E1)].
+  destruct (ns_fuel ns_fuel_enough 0%N) eqn:E0; [|exfalso; exact (ns_terminates_all _ E0)].
+  destruct p; destruct (parse_uint64 until) as [en|];
+    try (destruct (ns_fuel ns_fuel_enough en) eqn:E2; [|exfalso; exact (ns_terminates_all _ E2)]);
+    destruct (name_labels name); destruct w;
+    first [left; split; reflexivity | right; split; reflexivity].
+Qed.
+
+Lemma route_char : forall q, q_body q <> BBytes ->
+  (body_malformed q = true -> expect_is_error (route_outcome q) = true) /\
+  (body_malformed q = false -> route_outcome q = Exact C2xx).
+Proof.
+  intros q Hb. unfold body_malformed, route_outcome.
+  destruct (q_body q) as [from until name|nd spans|rs|s fb|p|bad| ]; [| | | | | |contradiction].
+  - destruct (ingest_char (q_ct q) from until name (q_wire_ok q)) as [[H1 H2]|[H1 H2]]; rewrite H2.
+    + split; [discriminate|intros _; now rewrite H1].
+    + split; [intros _; exact H1|discriminate].
+  - destruct (q_wire_ok q); cbn [negb orb]; [|split; [reflexivity|discriminate]].
+    rewrite <- (zipkin_events_bad nd spans). unfold zipkin_outcome. split; intros H.
+    + cbn [expect_is_error]. apply spans_bad_is_error; [reflexivity|exact span_st0_ok|apply zipkin_events_proper|exact H].
+    + rewrite (spans_good_is_done _ span_st0 world0 eq_refl span_st0_ok H). reflexivity.
+  - destruct (q_wire_ok q); cbn [negb orb]; [|split; [reflexivity|discriminate]].
+    rewrite <- (otlp_events_bad rs). unfold otlp_outcome. split; intros H.
+    + cbn [expect_is_error]. apply spans_bad_is_error; [reflexivity|exact span_st0_ok|apply otlp_events_proper|exact H].
+    + rewrite (spans_good_is_done _ span_st0 world0 eq_refl span_st0_ok H). reflexivity.
+  - unfold snappy_outcome. destruct (if unsnappy_decodes s then q_wire_ok q else fb);
+      split; try discriminate; intros _; reflexivity.
+  - destruct (precision_ok p), (q_wire_ok q); split; try discriminate; intros _; reflexivity.
+  - destruct bad, (q_wire_ok q); split; try discriminate; intros _; reflexivity.
+Qed.
+
+Lemma content_encoding_status_is_error : forall ce gz c, content_encoding ce gz = CeStatus c -> is_error_cls c = true.
+Proof.
+  intros ce gz c H. unfold content_encoding in H.
+  destruct (String.eqb ce ""); [discriminate|].
+  destruct (String.eqb ce "gzip"); [destruct gz; [discriminate|inversion H; reflexivity]|].
+  destruct (String.eqb ce "snappy"); [discriminate|inversion H; reflexivity].
+Qed.
+
+Lemma predict_char : forall q, q_body q <> BBytes ->
+  (malformed q = true -> expect_is_error (predict q) = true) /\
+  (malformed q = false -> predict q = Exact C2xx).
+Proof.
+  intros q Hb. unfold malformed, predict.
+  destruct (route_char q Hb) as [R1 R2].
+  destruct (q_body q) eqn:E; try contradiction;
+    (destruct (content_encoding (q_ce q) (q_gz_ok q)) as [|c] eqn:Hce;
+     [split; [exact R1|exact R2]
+     |split; [intros _; cbn [expect_is_error]; exact (content_encoding_status_is_error _ _ _ Hce)|discriminate]]).
+Qed.
